@@ -19,18 +19,20 @@ void BlockingWorld::setup(int ver, int alg, size_t keylen, size_t loginlen, bool
 	aggr.key = mk(keylen, 1, 'A'); aggr.login = mk(loginlen, 1, 'a');
 	ext.key = mk(keylen, 2, 'A'); ext.login = mk(loginlen, 2, 'a');
 	aggr_http = ah; ext_http = eh;
+	if (cred_in_uri) { if (!ah && aggr.key.size() >= 3) aggr.key[aggr.key.size() / 2] = ':'; if (!eh && ext.key.size() >= 3) ext.key[ext.key.size() / 3] = ':'; }
 	aggr_ep = N.add_endpoint("aggr.sim", 3332);
 	ext_ep = N.add_endpoint("ext.sim", 8010);
 	pub_ep = N.add_endpoint("pub.sim", 80);
-	aggr_uri = std::string(ah ? "ksi+http://" : "ksi+tcp://") + "aggr.sim:3332" + (ah ? "/gt-signingservice" : "");
-	ext_uri = std::string(eh ? "ksi+http://" : "ksi+tcp://") + "ext.sim:8010" + (eh ? "/gt-extendingservice" : "");
+	aggr_uri = std::string(ah ? "ksi+http://" : "ksi+tcp://") + (cred_in_uri && !ah ? aggr.login + ":" + aggr.key + "@" : "") + "aggr.sim:3332" + (ah ? "/gt-signingservice" : "");
+	ext_uri = std::string(eh ? "ksi+http://" : "ksi+tcp://") + (cred_in_uri && !eh ? ext.login + ":" + ext.key + "@" : "") + "ext.sim:8010" + (eh ? "/gt-extendingservice" : "");
 	pub_url = "http://pub.sim/ksi-publications.bin";
 	world.next_round = (uint64_t)(K.now_ms / 1000) - 300000;
 }
 
 void BlockingWorld::attach(KSI_CTX *ctx) {
-	KSI_CTX_setAggregator(ctx, aggr_uri.c_str(), aggr.login.c_str(), aggr.key.c_str());
-	KSI_CTX_setExtender(ctx, ext_uri.c_str(), ext.login.c_str(), ext.key.c_str());
+	bool au = cred_in_uri && !aggr_http, eu = cred_in_uri && !ext_http;
+	KSI_CTX_setAggregator(ctx, aggr_uri.c_str(), au ? NULL : aggr.login.c_str(), au ? NULL : aggr.key.c_str());
+	KSI_CTX_setExtender(ctx, ext_uri.c_str(), eu ? NULL : ext.login.c_str(), eu ? NULL : ext.key.c_str());
 	KSI_CTX_setPublicationUrl(ctx, pub_url.c_str());
 	KSI_CTX_setOption(ctx, KSI_OPT_AGGR_PDU_VER, (void *)(size_t)aggr.pdu_ver);
 	KSI_CTX_setOption(ctx, KSI_OPT_EXT_PDU_VER, (void *)(size_t)ext.pdu_ver);
